@@ -26,9 +26,9 @@ Definition of_x (x : xobs) : obs :=
   | XFile r => OFile (expand r) | XErr => OErr
   end.
 
-Definition val_case := (N * list xobs * list (N * xobs) * list (list (N * N) * xobs) * (rcls * rcls * list wound))%type.
+Definition val_case := (N * list (list nat * xobs) * list (list nat * N * xobs) * list (list nat * list (N * N) * xobs) * (rcls * rcls * list wound))%type.
 
-Definition run_val (ds : list obs) (ls : list (N * obs)) (fs : list (list N * obs)) : rcls * rcls * list wound :=
+Definition run_val (ds : list (list nat * obs)) (ls : list (list nat * N * obs)) (fs : list (list nat * list N * obs)) : rcls * rcls * list wound :=
   let v := validate 65536 4194304 (fun b : list N => b) nlist_eqb ds ls fs in
   let ff := failfast 65536 4194304 (fun b : list N => b) nlist_eqb ds ls fs in
   match v with
@@ -40,7 +40,7 @@ Definition mismatches_val (cs : list val_case) : list N :=
   map (fun c => let '(id, _, _, _, _) := c in id)
       (filter (fun c => let '(_, ds, ls, fs, obs) := c in
                         let '(wc, fc, ws) := obs in
-                        let '(mwc, mfc, mws) := run_val (map of_x ds) (map (fun p => (fst p, of_x (snd p))) ls) (map (fun p => (expand (fst p), of_x (snd p))) fs) in
+                        let '(mwc, mfc, mws) := run_val (map (fun p => (fst p, of_x (snd p))) ds) (map (fun p => let '(a, w, o) := p in (a, w, of_x o)) ls) (map (fun p => let '(a, sg, o) := p in (a, expand sg, of_x o)) fs) in
                         negb (rcls_eqb wc mwc && rcls_eqb fc mfc && list_eqb wound_eqb ws mws)) cs).
 
 (** pwr.AggregateWounds driven directly with synthetic marker sequences *)
